@@ -25,7 +25,9 @@
 (*                                                                         *)
 (* Where the docstrings are silent the model is silent: what happens to    *)
 (* the open file when a key is missing and raise_on_missing is set, the    *)
-(* order of the fields of the entry tuples, values that are not trees.     *)
+(* order of the objects of one file (LogOkRead compares bags), the order   *)
+(* of the fields of the entry tuples, values that are not trees.           *)
+(* The variable proto holds Protocol(sc), computed once per behaviour.     *)
 (***************************************************************************)
 EXTENDS Integers, Sequences, FiniteSets, TLC, Json
 
